@@ -11,6 +11,7 @@ mod variation;
 mod weighted;
 mod choices;
 mod compose;
+mod evolution;
 mod functional;
 mod generation;
 mod laws;
@@ -48,6 +49,7 @@ fn dispatch(cmd: &str, rest: &[String]) -> i32 {
         "ch-law" => choices::law(rest),
         "ch-trace" => choices::trace(rest),
         "ch-sizes" => choices::sizes(rest),
+        "evo-trace" => evolution::trace(rest),
         "cmp-replay" => compose::replay(rest),
         "cmp-trace" => compose::trace(rest),
         "law-var" => laws::run(rest),
